@@ -6,7 +6,7 @@ Record case15 := {
   params   : bytes;          (* parameter list (mode 1) *)
   src      : bytes;
   want     : option bytes;   (* stream 1: canonical dump of the tree JavaScript prescribes (the generator's own tree) *)
-  go_class : nat;            (* first parse of this input: 0 (tree, nil)   1 error value   2 panic / process killed   3 watchdog expired *)
+  go_class : nat;            (* first parse of this input: 0 (tree, nil)   1 error value   2 panic / process killed by the runtime   3 hang: no answer within the watchdog's bound *)
   go_dump  : bytes;          (* canonical dump of the tree Go returned (class 0) *)
   go_same  : bool;           (* the harness's own comparison: every parse of this input gave the same class and tree *)
   go_fp    : bytes;          (* fingerprint of the whole tree of the first parse (every field of every node) *)
@@ -24,7 +24,7 @@ Definition model (c : case15) : pres :=
   | _ => parse_function (params c) (src c)
   end.
 
-(* "returns a tree or an error value": no panic, no killed process, no expired watchdog *)
+(* "terminates and returns a tree or an error value": no panic, no killed process, no hang *)
 Definition class_ok (n : nat) : bool := Nat.eqb n 0 || Nat.eqb n 1.
 
 (* "the same answer every time": whenever the very same input was parsed again - directly afterwards,
